@@ -22,6 +22,25 @@ def run(prop, tier, rng):
         if mc["violated"]:
             path = vlib.save_replay(prop, "flagmodel_" + mc["violated"], dict(kind="model", invariant=mc["violated"], cfg=cfg, tlc_tail=mc["out"][-6000:]))
             violations.append(("Flag.tla (%s): %s violated" % (cfg, mc["violated"]), path))
+    proof = None
+    if tier == "thorough":
+        # NoLostWakeup for any number of tasks and raisers: the TLAPS proof of spec/proof/FlagProof.tla
+        d = vlib.workdir("proof_flag")
+        import shutil
+        shutil.copy(os.path.join(vlib.SPEC, "core", "Flag.tla"), d)
+        shutil.copy(os.path.join(vlib.SPEC, "proof", "FlagProof.tla"), d)
+        q = subprocess.run(["timeout", "1200", "tlapm", "--threads", "8", "FlagProof.tla"], cwd=d,
+                           stdout=subprocess.PIPE, stderr=subprocess.STDOUT, text=True)
+        import re
+        m = re.search(r"All (\d+) obligations proved", q.stdout)
+        if m:
+            proof = int(m.group(1))
+        elif "obligations failed" in q.stdout:
+            path = vlib.save_replay(prop, "flagproof", dict(kind="proof", tlapm_tail=q.stdout[-4000:]))
+            violations.append(("the TLAPS proof of NoLostWakeup (spec/proof/FlagProof.tla) no longer goes through", path))
+        else:
+            sys.stderr.write(q.stdout[-2000:])
+            raise vlib.ToolError("tlapm failed")
     scripts = scripts_for(tier, rng)
     by_id = {s["id"]: s for s in scripts}
     d = vlib.workdir("drv_flag")
@@ -51,5 +70,6 @@ def run(prop, tier, rng):
         text = f.read()
     extra = dict(flag_scenarios=total, flag_scenarios_accepted=acc,
                  flag_rechecks_under_lock_that_saw_the_raise=text.count('"e":"flag_check"') - text.count('"e":"flag_reg"'),
-                 flag_wakeups=text.count('"e":"woken"'), flag_model_states=mcs["distinct"])
+                 flag_wakeups=text.count('"e":"woken"'), flag_model_states=mcs["distinct"],
+                 flag_tlaps_obligations_proved=proof)
     return violations, extra, mcs, stats
